@@ -84,10 +84,12 @@ def check(rep, tier):
         if cfg["shape"][2] > 1:
             var = False        # pallets have no shelf term: no random vector
         key = (cfg["arr"], cfg["shape"], var)
+        cur = {"shape": cfg["shape"]}
         def ref(s, sv):
-            if (key, s, sv) not in refs:
-                refs[(key, s, sv)] = reference(cfg, s, sv)
-            return refs[(key, s, sv)]
+            kk = (key, cur["shape"], s, sv)
+            if kk not in refs:
+                refs[kk] = reference(dict(cfg, shape=cur["shape"]), s, sv)
+            return refs[kk]
         store = rng.choice([None, "all", "edge", [0, 2], "uniform_3", "random_2", "corner_random_1"])
         ops, coq_ops, obs = [], [], []
         N = int(np.prod(cfg["shape"]))
@@ -98,10 +100,17 @@ def check(rep, tier):
                     coq_ops.append("RecordRandom %s" % zlit(int(store.split("_")[-1])))
                 nops = rng.randint(1, 8)
                 for oi in range(nops):
-                    o = rng.choice(["seed", "seed", "seedv", "hshelf", "hint", "build", "run", "run"]) if oi < nops - 1 else "run"
+                    o = rng.choice(["seed", "seed", "seedv", "hshelf", "hint", "build", "run", "run", "reshape"]) if oi < nops - 1 else "run"
                     if o == "seedv":
                         # the vial seed is configuration of the NEXT run (separate global numpy stream; not part of the object model)
                         S.seed_v = rng.choice([7, 8, 9]); ops.append(("seed_v", S.seed_v))
+                    elif o == "reshape":
+                        # another batch shape with the same number of vials is configuration of the NEXT run (not part of the object model:
+                        # run() rebuilds the shelf vector anyway)
+                        x, y, z = cur["shape"]
+                        if x == y:
+                            continue
+                        cur["shape"] = (y, x, z); S.N_vials = cur["shape"]; ops.append(("N_vials", cur["shape"]))
                     elif o == "seed":
                         s = rng.choice([cfg["seed"], S.seed, rng.randint(0, 50)])
                         S.seed = s; ops.append(("seed", s)); coq_ops.append("SetSeed %s" % zlit(s))
@@ -172,6 +181,31 @@ def check(rep, tier):
                     rep.violation("snowfall-rep-vs-standalone %s" % how, "Snowfall(how=%r, pool_size=%r, Nrep=%d, s_sigma_rel=%r): repetition %d differs from the stand-alone run with seed %d"
                                   % (how, pool, Nrep, cfg["k"]["s_sigma_rel"], i, i), dict(config=cfg, how=how, pool_size=pool, Nrep=Nrep, repetition=i))
                     break
+            else:
+                if how != "sequential" and tier == "quick" and not var:
+                    continue
+                # the study object used again: query the tables, change the template's vial seed, run again -- the new repetitions are
+                # again the stand-alone runs (now with the new vial seed), in the raw statistics AND through the accessors
+                try:
+                    with impl.quiet():
+                        _ = SF.nucleationTimes(); _ = SF.to_frame()
+                        SF.Sf_template.seed_v = cfg["seed_v"] + 3
+                        SF.run(how=how)
+                        acc = [np.asarray(SF.nucleationTimes(seed=[i]), dtype=float) for i in range(Nrep)]
+                        accs = [np.asarray(SF.solidificationTimes(seed=[i]), dtype=float) for i in range(Nrep)]
+                except Exception as e:
+                    rep.violation("snowfall-crash %s" % type(e).__name__, "second Snowfall.run(how=%r) after a query and a new vial seed raises %r" % (how, e), dict(how=how, pool_size=pool, Nrep=Nrep))
+                    continue
+                rep.case(("snowfall-rerun", how, pool, Nrep, var, cfg["shape"]), nontrivial=True); rep.count("snowfall-rerun")
+                for i in range(Nrep):
+                    want = reference(cfg, i, cfg["seed_v"] + 3)
+                    if not stats_equal(SF.stats[i], want):
+                        rep.violation("snowfall-rerun rep-vs-standalone", "Snowfall(how=%r, Nrep=%d): after run, query, new template seed_v, run: repetition %d differs from the stand-alone run (seed %d, seed_v %d)"
+                                      % (how, Nrep, i, i, cfg["seed_v"] + 3), dict(config=cfg, how=how, pool_size=pool, Nrep=Nrep, repetition=i)); break
+                    if not (np.array_equal(np.sort(acc[i]), np.sort(np.asarray(want["t_nucleation"], dtype=float)), equal_nan=True)
+                            and np.array_equal(np.sort(accs[i]), np.sort(np.asarray(want["t_solidification"], dtype=float)), equal_nan=True)):
+                        rep.violation("snowfall-rerun accessor-stale", "Snowfall(how=%r, Nrep=%d): after run, query, new template seed_v, run: nucleationTimes/solidificationTimes(seed=[%d]) are not those of the "
+                                      "stand-alone run with seed %d and the new vial seed" % (how, Nrep, i, i), dict(config=cfg, how=how, pool_size=pool, Nrep=Nrep, repetition=i)); break
     rc, out = common.coq_eval("c04_0", HEAD % coq_list(cases), timeout=600)
     blocks = common.eval_blocks(out)
     if rc != 0 or len(blocks) != 1:
